@@ -14,7 +14,9 @@ Init == [i |-> 0, viol |-> {}, R |-> RInit, prev |-> NoSnap,
          force |-> FALSE, tStop |-> 0, until |-> 0, tDone |-> 0,
          await |-> {},                \* connections that were sent a DPR and have neither answered nor gone
          known |-> {},                \* every connection the node ever accepted or dialled
-         late  |-> {}]                \* connections accepted while stopping
+         late  |-> {},                \* connections accepted while stopping
+         owed  |-> [c \in CIds |-> {}],
+         stalled |-> {}]              \* connections whose peer has stopped reading: nothing sent to them can be observed any more   \* answers the node owes on c and has not transmitted yet (watchdog answers, accepted application answers)
 
 \* slack between the moment nothing is left to wait for and stop() returning: I/O thread join (wakeup + 1) + statistics thread join (2)
 Slack == MCfg.node.wakeup + 1 + 2 + 1
@@ -37,7 +39,7 @@ StepN(M, st) ==
       \* ready when stop was called: the capabilities exchange succeeded, nothing ended it, and the node reports it ready
       \* (schedule scenarios: "also" names an environment event happening concurrently with the call)
       also == IF "also" \in DOMAIN a THEN {a.also.c} ELSE {}
-      readyAtStop == {c \in CIds : InService(M0.R, c) /\ CstOf(M0.prev, c) \in READY /\ ~IsClosed(M0.prev, c)} \ also
+      readyAtStop == ({c \in CIds : InService(M0.R, c) /\ CstOf(M0.prev, c) \in READY /\ ~IsClosed(M0.prev, c)} \ also) \ M0.stalled
       \* ---- clauses
       vDpr == IF stopNow /\ ~a.force /\ \E c \in readyAtStop : c \notin dprTo THEN {"dpr_not_sent_to_ready_peer"} ELSE {}
       vForce == IF stopping /\ force /\ dprTo # {} THEN {"dpr_sent_on_forced_stop"} ELSE {}
@@ -52,7 +54,7 @@ StepN(M, st) ==
                (IF Ev(LAMBDA e : (e.ev \in {"tx", "dispatch", "app_req"}) /\ e.c \in late) # {} THEN {"newcomer_served"} ELSE {})
       \* a DPA arrives on a connection that was sent the DPR: closed in this very step (output is flushed at once at this grain)
       dpaOn == IF IsFeed(st) /\ \E j \in 1..Len(a.ms) : a.ms[j].cmd = "DP" /\ ~a.ms[j].req THEN {a.c} ELSE {}
-      vDpa == IF M0.phase = "stopping" /\ ~force /\ \E c \in dpaOn \cap M0.await : ~IsClosed(sn, c) THEN {"not_closed_after_dpa"} ELSE {}
+      vDpa == IF M0.phase = "stopping" /\ ~force /\ \E c \in (dpaOn \cap M0.await) \ M0.stalled : ~IsClosed(sn, c) THEN {"not_closed_after_dpa"} ELSE {}
       \* ... and what the node owed the peer when the DPA arrived is transmitted first: answers to watchdog requests received
       \* in the same network read ahead of the DPA, and application answers accepted for that connection in this step
       chunk == IF IsFeed(st) THEN a.ms ELSE <<>>
@@ -61,9 +63,22 @@ StepN(M, st) ==
       before == {j \in 1..Len(chunk) : j < dpaAt /\ chunk[j].req}
       owed == {Key(chunk[j]) : j \in {k \in before : chunk[k].cmd = "DW" /\ chunk[k].oh # ""}} \cup
               {Key(out[j].m) : j \in Ev(LAMBDA e : e.ev = "submit" /\ e.r = "ok" /\ \E k \in before : Key(chunk[k]) = Key(e.m))}
-      vFlush == IF M0.phase = "stopping" /\ ~force /\ now < until /\ dpaAt # 0 /\ a.c \in M0.await /\     \* (at the timeout everything is closed as it is)
-                   \E k \in owed : Ev(LAMBDA e : e.ev = "tx" /\ e.c = a.c /\ ~e.m.req /\ Key(e.m) = k) = {}
+      \* what is owed is remembered across steps (a peer that has stopped reading keeps it pending): a connection is not closed by the
+      \* node with something still owed before the timeout, unless the peer itself closed / reset it
+      sentOn(c) == {Key(out[j].m) : j \in Ev(LAMBDA e : e.ev = "tx" /\ e.c = c /\ ~e.m.req)}
+      owedNew(c) == IF dpaAt # 0 /\ a.c = c /\ a.c \in M0.await THEN owed ELSE
+                    IF IsFeed(st) /\ a.c = c /\ dpaAt = 0 /\ stopping /\ InService(M0.R, c)
+                    THEN {Key(chunk[j]) : j \in {k \in 1..Len(chunk) : chunk[k].req /\ chunk[k].cmd = "DW" /\ chunk[k].oh # ""}} ELSE {}
+      owed1 == [c \in CIds |-> (M0.owed[c] \cup owedNew(c)) \ sentOn(c)]
+      faulted == IF a.a \in {"peer_close", "peer_reset", "send_error"} THEN {a.c} ELSE {}
+      vFlush == IF M0.phase = "stopping" /\ ~force /\ now < until /\     \* (at the timeout everything is closed as it is)
+                   \E c \in closedNow : c \in CIds /\ owed1[c] # {} /\ c \notin faulted /\ CstOf(M0.prev, c) \in {"DISCONNECTING", "CLOSING"} \cup READY
                 THEN {"pending_output_not_flushed_before_close"} ELSE {}
+      \* crossing DPRs: the peer's own DPR arriving on a connection that was sent the node's DPR is answered all the same
+      dprFrom == IF IsFeed(st) /\ Len(a.ms) = 1 /\ a.ms[1].cmd = "DP" /\ a.ms[1].req /\ a.ms[1].oh # "" THEN {a.c} ELSE {}
+      vCross == IF M0.phase = "stopping" /\ ~force /\ now < until /\ \E c \in (dprFrom \cap M0.await) \ M0.stalled :
+                     ~IsClosed(M0.prev, c) /\ Ev(LAMBDA e : e.ev = "tx" /\ e.c = c /\ e.m.cmd = "DP" /\ ~e.m.req /\ Key(e.m) = Key(a.ms[1])) = {}
+                THEN {"peer_dpr_not_answered_while_stopping"} ELSE {}
       \* a connection awaiting its DPA is not closed by the node before the timeout unless something happened on it
       touched == IF a.a \in {"feed", "rx", "peer_close", "peer_reset"} THEN {a.c} ELSE {}
       vEarly == IF M0.phase = "stopping" /\ ~force /\ now < until /\ \E c \in (M0.await \cap closedNow) : c \notin touched
@@ -82,12 +97,14 @@ StepN(M, st) ==
       vLateDone == IF stopping /\ ~doneNow /\ now > until + Slack + 1 THEN {"stop_did_not_return_after_timeout"} ELSE {}
       \* connection worker threads: each polls its queue with a 5 s timeout
       vThreads == IF M0.phase = "done" /\ now >= M0.tDone + 6 /\ sn.tb[8] > 0 THEN {"worker_threads_alive_after_stop"} ELSE {}
-      sigs == vDpr \cup vForce \cup vCause \cup vDw \cup vDial \cup vLate \cup vDpa \cup vFlush \cup vEarly \cup vDone \cup vLateDone \cup vThreads
+      sigs == vDpr \cup vForce \cup vCause \cup vDw \cup vDial \cup vLate \cup vDpa \cup vFlush \cup vCross \cup vEarly \cup vDone \cup vLateDone \cup vThreads
   IN [M0 EXCEPT !.viol = @ \cup {[sig |-> s, at |-> M0.i] : s \in sigs},
                 !.R = RUpdate(M0.R, st), !.prev = [t |-> sn.t, cst |-> sn.cst, closed |-> sn.closed, conns |-> sn.conns, socks |-> sn.socks],
                 !.phase = IF doneNow THEN "done" ELSE IF stopNow THEN "stopping" ELSE @,
                 !.force = force, !.tStop = IF stopNow THEN now ELSE @, !.until = until,
                 !.tDone = IF doneNow THEN now ELSE @,
-                !.await = await1, !.known = known, !.late = late]
+                !.await = await1, !.known = known, !.late = late,
+                !.owed = [c \in CIds |-> IF c \in closedNow THEN {} ELSE owed1[c]],
+                !.stalled = @ \cup (IF a.a = "stall" THEN {a.c} ELSE {})]
 Step(M, s0) == StepN(M, Norm(s0))
 =============================================================================
